@@ -10,6 +10,7 @@ if len(sys.argv)>2: seeds=[s for s in seeds if s in sys.argv[2:]]
 N=int(sys.argv[1]) if len(sys.argv)>1 else 4
 lanes=[[] for _ in range(N)]
 for i,s in enumerate(seeds): lanes[i%N].append(s)
+for f in glob.glob(ROOT+"/seeded/matrix-L*.json"): os.remove(f)  # stale lane file of an earlier run would override the merge
 procs=[]
 for k,l in enumerate(lanes):
     script="\n".join("python3 tools/seed_matrix.py %s %s" % (fam[s.split('-')[0]], s) for s in l)
